@@ -123,3 +123,22 @@ func removeEmptyDirs(fs afero.Fs, root, dir string) {
 		dir = path.Dir(dir)
 	}
 }
+
+// validObjectName reports whether an object key can be stored as a file
+// below its bucket directory under exactly that name. Keys with empty, '.'
+// or '..' segments would be normalised by the file system into a different
+// key, possibly one in another bucket.
+func validObjectName(name string) bool {
+	if name == "" {
+		return false
+	}
+	for _, segment := range strings.Split(name, "/") {
+		if segment == "" || segment == "." || segment == ".." {
+			return false
+		}
+	}
+	return true
+}
+
+var errInvalidObjectName = gofakes3.ErrorMessage(gofakes3.ErrInvalidArgument,
+	"object keys with empty, '.' or '..' path segments cannot be stored by this backend")
